@@ -234,7 +234,7 @@ pub fn verif_dir() -> String {
 }
 
 /// Write evidence, print VIOLATION / KNOWN-FINDING lines, compute the exit code.
-pub fn finish(rep: &Report, min_states: u64) -> Finish {
+pub fn finish(rep: &Report, min_states: u64, recheck: &dyn Fn(&str, &Viol) -> Option<bool>) -> Finish {
     let verif = verif_dir();
     let l = rep.take();
     let findings = load_findings(&verif);
@@ -262,6 +262,13 @@ pub fn finish(rep: &Report, min_states: u64) -> Finish {
                 }
                 fresh_keys.insert(v.key.clone());
             }
+        }
+    }
+    // determinism: a self-contained case must reproduce when executed again, outside the explorer
+    for v in &fresh {
+        if let Some(false) = recheck(&rep.id, v) {
+            eprintln!("MACHINERY: violation {} on case {} did not reproduce on immediate re-execution (nondeterminism in the harness?)", v.key, truncate(&v.case, 200));
+            return Finish { exit_code: 2 };
         }
     }
     let _ = std::fs::create_dir_all(format!("{}/evidence", verif));
